@@ -1,5 +1,5 @@
 (* C15 — gzip plugin: what the client decodes is exactly what the backend sent.  Statements only. *)
-From Helios Require Import Base.Prelude Model.RespWriter Proofs.WriterProofs.
+From Helios Require Import Base.Prelude Model.RespWriter Proofs.WriterProofs Proofs.GzipProofs.
 
 (* without the token "gzip" in Accept-Encoding the plugin does not touch the exchange at all *)
 Theorem C15_identity_without_ae : forall cfg cs, gz_transform cfg false cs = cs.
@@ -22,10 +22,16 @@ Theorem C15_conditions :
 Proof. exact gz_should_conditions. Qed.
 Print Assumptions C15_conditions.
 
-(* PARTIAL: "decode(client view) = backend body, with the backend's status" is decided on every
-   implementation run over real connections (mon_c15_decodes: the harness gunzips what the raw client
-   received under the headers it received); its simulation proof over RespWriter.v is not done yet.
-   compress/gzip itself is a library: gunzip(gzip b) = b is built into the payload representation. *)
+(* Decoding the bytes the client receives according to the Content-Encoding it receives yields exactly the handler's body, with
+   the handler's status (and its interim responses, content type and application headers): for every configuration of the
+   plugin, every Accept-Encoding verdict and every well-formed script of a handler that writes its body as it is (what the
+   reverse proxy does).  compress/gzip itself is a library: gunzip (gzip b) = b is the meaning of the payload [PGz n]. *)
+Theorem C15_decodes :
+  forall cfg ae cs, wf_script cs = true -> raw_script cs = true ->
+    view_eq (view (base_run base0 (gz_transform cfg ae cs))) (view (base_run base0 cs)).
+Proof. exact gz_decodes. Qed.
+Print Assumptions C15_decodes.
+
 Example C15_nonvacuous :
   let cfg := {| gz_min := 16; gz_cap := 10485760; gz_types := [0] |} in
   gz_transform cfg true [CSet 1 0; CSet 2 40; CHead 201; CWrite (PRaw 40)]
